@@ -25,6 +25,16 @@ CHECKS = {
              'swallowed by an unterminated instance/string are exempt from confinement. Known defects are in known_findings.json.',
         technique='exhaustive single-fault enumeration over structured inputs on the real reader + confinement oracle',
         ref='3/C03'),
+    'C05': dict(
+        text='Bounded exhaustive enumeration on ASan+UBSan builds of the real reader/writer: (a) ALL strings of length <= 4 (thorough 5) over the 19-character '
+             'Part 21 punctuation alphabet, each before "," and ")", read into 14 (thorough 30) attribute kinds (4.5 M reads in the quick tier), and all strings '
+             'of length <= 2 (3) as instance bodies; (b) every single grammar-aware mutation of the conforming default population of each kind: token '
+             'delete/duplicate/swap at every token, every token stretched to 63..BUFSIZ+1 and 100000 characters, parentheses nested to 2/64/1000/100000, '
+             'truncation at every byte offset of data and header, oversized and illegal complex instances, working-session variants; plus a doubling '
+             'rule (12.5k..100k) for time proportionality. Oracle: no sanitizer report, no signal, no hang.',
+        note='Trusted: gcc 12 ASan/UBSan; leaks are not judged; the time clause is checked only by the coarse doubling rule (all three ratios > 3 and > 2 s).',
+        technique='exhaustive short-input enumeration + exhaustive single-mutation enumeration on sanitizer builds of the real code',
+        ref='3/C05'),
     'C09': dict(
         text='Classical exhaustive enumeration at the attribute seam: for each simple kind ALL strings up to length 4-5 (thorough 6-7) over the kind\'s '
              'alphabet plus boundary numerals, each in 6 delimiter contexts, are read by the real STEPattribute::STEPread (1.6 M reads in the quick tier) '
